@@ -159,6 +159,15 @@ fn main() {
             }
         }
         let mut eg = if threads > 1 { egglog::EGraph::default().with_num_threads(threads) } else { egglog::EGraph::default() };
+        // C03: a second engine with semi-naive evaluation switched off, run in lockstep
+        let mut eg_naive: Option<egglog::EGraph> = if prop == "C03" {
+            let mut e = egglog::EGraph::default();
+            e.seminaive = false;
+            let _ = step(&mut e, &p.header());
+            Some(e)
+        } else {
+            None
+        };
         let (r0, _) = step(&mut eg, &p.header());
         if let Err(e) = r0 {
             viols.push(Viol { what: format!("harness: header rejected: {e}"), key: "harness-header".into(), program: text.clone(), at: 0 });
@@ -262,6 +271,32 @@ fn main() {
                 break;
             }
             let ob = d.observe(&probes, &iprobes);
+            if let Some(en) = eg_naive.as_mut() {
+                let (rn, pn) = step(en, &ctext);
+                let same_outcome = rn.is_ok() == ok && !pn;
+                let obn = dump(en, p).map(|dn| dn.observe(&probes, &iprobes));
+                match obn {
+                    Ok(obn) if same_outcome && obn == ob => {}
+                    Ok(obn) => {
+                        viols.push(Viol {
+                            what: format!(
+                                "after command {k} `{}`: semi-naive and naive evaluation differ: semi-naive {} sizes {:?} classes {:?}; naive {} sizes {:?} classes {:?}",
+                                ctext.replace('\n', " "),
+                                if ok { "ok" } else { "failed" }, ob.sizes, ob.classes,
+                                if rn.is_ok() { "ok" } else { "failed" }, obn.sizes, obn.classes
+                            ),
+                            key: "C03-semi-vs-naive".into(),
+                            program: text.clone(),
+                            at: k,
+                        });
+                        break;
+                    }
+                    Err(e) => {
+                        viols.push(Viol { what: format!("naive engine dump failed: {e}"), key: "dump-failed".into(), program: text.clone(), at: k });
+                        break;
+                    }
+                }
+            }
             if let Some(ps) = &prev_sizes {
                 if ob.sizes.iter().zip(ps.iter()).any(|(a, b)| a < b) {
                     did_rebuild_merge = true;
